@@ -160,6 +160,38 @@ fn main() {
             let _ = writeln!(out, "{}.names.rcvar\t{}\t{}", i, text, outcome(e.search(rc.clone())));
             let _ = writeln!(out, "{}.names.rcvar_ref\t{}\t{}", i, text, outcome(e.search(&rc)));
         }
+        // (1d) deep documents and texts that differ only in blanks inside delimiters: a depth
+        // limit or a cache that exists only in some builds must not show
+        if i % 7 == 0 {
+            let depth = [60usize, 100, 126, 127, 128, 129, 130, 200, 300][rng.below(9)];
+            let mut doc = serde_json::json!(7);
+            for d in 0..depth {
+                doc = if d % 3 == 2 { serde_json::json!({ "k": doc }) } else { Value::Array(vec![doc]) };
+            }
+            let text = ["length(@)", "type(@)", "@[0]", "to_array(@)[0]", "[@, @] | [0] | type(@)"][rng.below(5)];
+            let e = jmespath::compile(text).unwrap();
+            let var = var_of(&doc);
+            let rc = Rcvar::new(var.clone());
+            let short = |s: String| if s.len() > 120 { format!("{}…{}", &s[..60], s.len()) } else { s };
+            let _ = writeln!(out, "{}.deep{}.value\t{}\t{}", i, depth, text, short(outcome(e.search(doc.clone()))));
+            let _ = writeln!(out, "{}.deep{}.value_ref\t{}\t{}", i, depth, text, short(outcome(e.search(&doc))));
+            let _ = writeln!(out, "{}.deep{}.variable\t{}\t{}", i, depth, text, short(outcome(e.search(var.clone()))));
+            let _ = writeln!(out, "{}.deep{}.variable_ref\t{}\t{}", i, depth, text, short(outcome(e.search(&var))));
+            let _ = writeln!(out, "{}.deep{}.rcvar\t{}\t{}", i, depth, text, short(outcome(e.search(rc.clone()))));
+            let _ = writeln!(out, "{}.deep{}.rcvar_ref\t{}\t{}", i, depth, text, short(outcome(e.search(&rc))));
+            let kdoc = serde_json::json!({"foo bar": 1, "foo  bar": 2, "foobar": 3, "s": "x"});
+            let k = 1 + rng.below(3);
+            for (n, t) in [
+                format!("'a{}b'", " ".repeat(k)), "'a b'".to_string(), format!("\"foo{}bar\"", " ".repeat(k)), "\"foo bar\"".to_string(), format!("`\"x{}y\"`", " ".repeat(k)),
+                "`\"x y\"`".to_string(), format!("{}abs(s)", " ".repeat(k)), "abs(s)".to_string(), format!("[`1`,{}'a  b']", " ".repeat(k)), "[`1`, 'a b']".to_string(),
+            ]
+            .iter()
+            .enumerate()
+            {
+                let r = jmespath::compile(t).and_then(|e| e.search(&kdoc));
+                let _ = writeln!(out, "{}.blanks.{}\t{:?}\t{}", i, n, t, outcome(r));
+            }
+        }
         // (2) scalar inputs of every specially-handled type
         let se = jmespath::compile(scalar_exprs[rng.below(scalar_exprs.len())]).unwrap();
         let pick = |rng: &mut Rng, min: i128, max: i128| -> i128 {
